@@ -39,6 +39,29 @@ func TestSeeds(t *testing.T) {
 		}
 		checkTree(tr, 1, 1, res)
 	}
+	// _path_to_expr used "" as its own sentinel (repaired in 40610937):
+	// strict seeds, through fq's own expr_to_path
+	{
+		ps := []any{[]any{""}, []any{"a", ""}, []any{"", 0}, []any{"", ""}, []any{0, ""}, []any{}}
+		out, err := pathStream.Next(map[string]any{"paths": ps, "full": ps})
+		if err != nil || len(out) != 2*len(ps) {
+			res.Failf("harness:jq-evaluation-failed", "%v (%d rows)", err, len(out))
+		} else {
+			for i, p := range ps {
+				pa := p.([]any)
+				row, _ := out[i].([]any)
+				if expr, ok := row[1].(string); !ok {
+					res.Failf("regression:path-with-empty-key", "%s | path_to_expr = %v", showPath(pa), row[1])
+				} else if back, err := refPath(expr); err != nil || !samePath(back, pa) {
+					res.Failf("regression:path-with-empty-key", "%s | path_to_expr = %q, which reads back as %s (%v)", showPath(pa), expr, showPath(back), err)
+				}
+				full, _ := out[len(ps)+i].([]any)
+				if !samePath(full[1], pa) {
+					res.Failf("regression:path-with-empty-key", "%s | path_to_expr | expr_to_path = %s", showPath(pa), showPath(full[1]))
+				}
+			}
+		}
+	}
 	req := treegen.Req{Path: "seed:arrayroot-failing-callback", Format: "program"}
 	count(req, res, "src:seed")
 	report(t, t.Name(), p, req.String(), res)
@@ -123,6 +146,99 @@ func TestMutants(t *testing.T) {
 		}
 	})
 	harness.ExtraAdd("worker_deaths", int64(pool.Deaths))
+}
+
+// ---------------------------------------------------------------------------
+// trees whose top value was decoded from a sub-range of a larger buffer
+// (`binary[a:b] | format`): paths and navigation must not depend on where the
+// decode started
+
+var subStream = &treeq.Stream{Restart: 1500, Body: `
+. as $in
+| try ($in.buf | (if $in.mode == "bytes" then tobytes[$in.a:$in.b] else tobits[$in.a:$in.b] end) | decode($in.format))
+  catch {verif_err: tostring}
+`}
+
+func TestSubRange(t *testing.T) {
+	buckets := treegen.Buckets(32 << 10)
+	corpus := treegen.Corpus()
+	harness.Rapid(t, 600, 30000, func(rt *rapid.T, c *harness.Case) {
+		b := buckets[treegen.UniformIndex(rt, "bucket", len(buckets))]
+		e := corpus[b.Entries[treegen.UniformIndex(rt, "entry", len(b.Entries))]]
+		pad := func(label string) int64 {
+			bits := int64(rapid.OneOf(rapid.IntRange(0, 3), rapid.IntRange(0, 40)).Draw(rt, label+"_bytes")) * 8
+			if rapid.IntRange(0, 2).Draw(rt, label+"_unaligned") == 0 {
+				bits += int64(rapid.IntRange(1, 7).Draw(rt, label+"_bits"))
+			}
+			return bits
+		}
+		pre, suf := pad("pre"), pad("suf")
+		fill := rapid.Uint64().Draw(rt, "fill")
+		via := rapid.SampledFrom([]string{"go", "jq"}).Draw(rt, "via")
+		cs := map[string]any{"path": e.Path, "format": e.Format, "pre_bits": pre, "suf_bits": suf, "fill": fill, "via": via}
+		c.Set("case", cs)
+		c.Label("src:subrange")
+		c.Label("via:" + via)
+		nBits := int64(len(e.Data)) * 8
+		if nBits == 0 {
+			c.Label("skipped:empty-file")
+			return
+		}
+		buf, bufBits := treeq.Embed(e.Data, nBits, pre, suf, fill)
+		var top *decode.Value
+		if via == "go" {
+			top, _ = treeq.DecodeRange(buf, bufBits, e.Format, pre, nBits, false)
+		} else {
+			bin, err := treeq.BinaryOf(buf, bufBits)
+			if err != nil {
+				c.Failf("harness:binary", "%v", err)
+			}
+			in := map[string]any{"buf": bin, "format": e.Format, "mode": "bits", "a": int(pre), "b": int(pre + nBits)}
+			if pre%8 == 0 && bufBits%8 == 0 {
+				in["mode"], in["a"], in["b"] = "bytes", int(pre/8), int((pre+nBits)/8)
+			}
+			out, err := subStream.Next(in)
+			if err != nil || len(out) != 1 {
+				c.Failf("harness:jq-evaluation-failed", "%v (%d outputs)", err, len(out))
+			}
+			if _, isErr := errOf(out[0]); !isErr {
+				top = treeq.DecodeValueOf(out[0])
+			}
+		}
+		if top == nil {
+			c.Label("no-tree")
+			return
+		}
+		if pre%8 != 0 {
+			c.Label("subrange-start-unaligned")
+		}
+		if pre > 0 {
+			c.Label("subrange-start>0")
+		}
+		res := &treegen.Result{}
+		func() {
+			defer func() {
+				if r := recover(); r != nil {
+					res.Failf("oracle-panic", "panic while checking the tree: %v\n%s", r, debug.Stack())
+				}
+			}()
+			checkTree(treegen.Build(top), harness.Hash64(cs), 16, res)
+		}()
+		if top.Err != nil {
+			c.Label("failed-decode(partial-tree)")
+		}
+		for _, l := range res.Labels {
+			c.Label(l)
+		}
+		addStats(res)
+		c.SetNonTrivial(res.NT && pre > 0)
+		for _, f := range res.Fails {
+			if harness.Known(f.Sig) {
+				continue
+			}
+			c.Failf(f.Sig, "%s", f.Msg)
+		}
+	})
 }
 
 // ---------------------------------------------------------------------------
